@@ -1,11 +1,40 @@
-(** * GenPropsTupleN: C01 stated about the tuple impls of arity 3 to 12 as rustc expands them: what the expanded
-    encoder writes for a tuple, the expanded decoder reads back as that tuple, for every choice of component type
-    expressions.  Written by tools/gen_tuple_proofs.py --props (one instance of [src_round_trip] per arity). *)
+(** * GenPropsTupleN: C01 and C02 stated about the tuple impls of arity 3 to 12 as rustc expands them: what the expanded
+    encoder writes for a tuple, the expanded decoder reads back as that tuple; what the expanded decoder accepts, the
+    expanded encoder writes back byte for byte -- for every choice of component type expressions.  Written by
+    tools/gen_tuple_proofs.py --props. *)
 From SSZ Require Import Base RustSem Offsets Encoder Builder Types Codec CodecUnfold BaseFacts OffsetsFacts AppendFacts MetaFacts
      ListDecFacts NoPanic Canon OrderFacts RoundTrip LeafIface LeafProof SizeFacts Strict
      Generated GenEquiv GenEquivDec GenEquivEnc GenProps GeneratedDerive GenEquivDerive GenEquivDerive2 GenEquivTuple GenEquivTupleN GenPropsDerive.
 From Coq Require Import ZArith ZifyN ZifyBool ZifyNat Lia.
 Open Scope N_scope.
+
+(** the length of a container's encoding is the sum of its fields' shares, whatever their size classes *)
+Lemma sum_fixed_is_field_len fs vs : length fs = length vs -> forallb e_is_fixed fs = true ->
+  sumN (map e_fixed_len fs) = sumN (map (fun p => field_len (fst p) (snd p)) (combine fs vs)).
+Proof.
+  revert vs. induction fs as [|f fs IH]; intros [|v vs] Hl Hf; try discriminate; [reflexivity|].
+  cbn [forallb] in Hf. apply andb_prop in Hf. destruct Hf as [Hf1 Hf2].
+  cbn [combine map sumN fst snd]. unfold field_len at 1. rewrite Hf1. rewrite (IH vs); [reflexivity| cbn [length] in Hl; congruence | exact Hf2].
+Qed.
+
+Lemma bytes_len_container_sum d fs vs : length fs = length vs ->
+  bytes_len (TContainer d fs) (VCont vs) = sumN (map (fun p => field_len (fst p) (snd p)) (combine fs vs)).
+Proof.
+  intro Hl. rewrite bytes_len_container. destruct (forallb e_is_fixed fs) eqn:E; [|reflexivity].
+  apply sum_fixed_is_field_len; assumption.
+Qed.
+
+Lemma field_len_ge t v : has_ty t v = true -> len (enc t v) <= field_len t v.
+Proof.
+  intro Hty. unfold field_len. destruct (e_is_fixed t) eqn:EF.
+  - rewrite (proj2 (size_facts leaf_facts t v Hty) EF). lia.
+  - rewrite <- (proj1 (size_facts leaf_facts t v Hty)). lia.
+Qed.
+
+Lemma fixed_len_le_field_len t v : e_fixed_len t <= field_len t v.
+Proof.
+  unfold field_len. destruct (e_is_fixed t) eqn:EF; [lia|]. rewrite (variable_fixed_len t EF). unfold BYTES_PER_LENGTH_OFFSET. lia.
+Qed.
 
 Definition inj3 (p : val * val * val) : val := VCont [(fst (fst p)); (snd (fst p)); (snd p)].
 Lemma inj3_inj p p' : inj3 p' = inj3 p -> p' = p.
@@ -30,6 +59,33 @@ Proof.
 Qed.
 Print Assumptions Src_C01_tuple3.
 
+Theorem Src_C02_tuple3 tA tB tC bs p :
+  canon_type (TContainer false [tA; tB; tC]) = true -> phys bs -> 2 * len bs <= usize_max ->
+  GenD.tuple3_from_ssz_bytes (d_is_fixed tA) (d_fixed_len tA) (dec tA) (d_is_fixed tB) (d_fixed_len tB) (dec tB) (d_is_fixed tC) (d_fixed_len tC) (dec tC) bs = Ok p ->
+  GenD.tuple3_ssz_append (e_is_fixed tA) (e_fixed_len tA) (app_of tA) (e_is_fixed tB) (e_fixed_len tB) (app_of tB) (e_is_fixed tC) (e_fixed_len tC) (app_of tC) p [] = Ok bs.
+Proof.
+  intros Hc Hp HF Hr.
+  assert (Hd : dec (TContainer false [tA; tB; tC]) bs = Ok (inj3 p)) by (rewrite <- gen_tuple3_from_ssz_bytes, Hr; reflexivity).
+  destruct (canon_facts leaf_facts _ Hc bs (inj3 p) Hp Hd) as (He & Hty).
+  destruct p as [[av bv] cv]. unfold inj3 in *. cbn [fst snd] in *.
+  rewrite gen_tuple3_ssz_append; [f_equal; exact He|].
+  pose proof (proj1 (size_facts leaf_facts _ _ Hty)) as S. rewrite bytes_len_container_sum in S by reflexivity.
+  cbn [combine map sumN fst snd] in S. fold (enc (TContainer false [tA; tB; tC]) (VCont [av; bv; cv])) in He. rewrite He in S.
+  rewrite has_ty_container, !has_ty_fields_cons in Hty.
+  repeat (let H := fresh "HT" in apply andb_prop in Hty; destruct Hty as [H Hty]).
+  pose proof (field_len_ge tA av HT).
+  pose proof (field_len_ge tB bv HT0).
+  pose proof (fixed_len_le_field_len tA av).
+  pose proof (fixed_len_le_field_len tB bv).
+  pose proof (fixed_len_le_field_len tC cv).
+  clear Hc Hp Hr Hd He Hty. repeat match goal with H : has_ty _ _ = true |- _ => clear H end.
+  repeat match goal with |- context [len (enc ?t ?v)] => let x := fresh "x" in set (x := len (enc t v)) in *; clearbody x end.
+  repeat match goal with H : context [field_len ?t ?v] |- _ => let y := fresh "y" in set (y := field_len t v) in *; clearbody y end.
+  repeat match goal with |- context [e_fixed_len ?t] => let z := fresh "z" in set (z := e_fixed_len t) in *; clearbody z end.
+  lia.
+Qed.
+Print Assumptions Src_C02_tuple3.
+
 Definition inj4 (p : val * val * val * val) : val := VCont [(fst (fst (fst p))); (snd (fst (fst p))); (snd (fst p)); (snd p)].
 Lemma inj4_inj p p' : inj4 p' = inj4 p -> p' = p.
 Proof. destruct p as [[[av bv] cv] dv], p' as [[[av' bv'] cv'] dv']. unfold inj4. cbn [fst snd]. intro H. injection H; intros; subst; reflexivity. Qed.
@@ -52,6 +108,35 @@ Proof.
   - intro bs. apply gen_tuple4_from_ssz_bytes.
 Qed.
 Print Assumptions Src_C01_tuple4.
+
+Theorem Src_C02_tuple4 tA tB tC tD bs p :
+  canon_type (TContainer false [tA; tB; tC; tD]) = true -> phys bs -> 2 * len bs <= usize_max ->
+  GenD.tuple4_from_ssz_bytes (d_is_fixed tA) (d_fixed_len tA) (dec tA) (d_is_fixed tB) (d_fixed_len tB) (dec tB) (d_is_fixed tC) (d_fixed_len tC) (dec tC) (d_is_fixed tD) (d_fixed_len tD) (dec tD) bs = Ok p ->
+  GenD.tuple4_ssz_append (e_is_fixed tA) (e_fixed_len tA) (app_of tA) (e_is_fixed tB) (e_fixed_len tB) (app_of tB) (e_is_fixed tC) (e_fixed_len tC) (app_of tC) (e_is_fixed tD) (e_fixed_len tD) (app_of tD) p [] = Ok bs.
+Proof.
+  intros Hc Hp HF Hr.
+  assert (Hd : dec (TContainer false [tA; tB; tC; tD]) bs = Ok (inj4 p)) by (rewrite <- gen_tuple4_from_ssz_bytes, Hr; reflexivity).
+  destruct (canon_facts leaf_facts _ Hc bs (inj4 p) Hp Hd) as (He & Hty).
+  destruct p as [[[av bv] cv] dv]. unfold inj4 in *. cbn [fst snd] in *.
+  rewrite gen_tuple4_ssz_append; [f_equal; exact He|].
+  pose proof (proj1 (size_facts leaf_facts _ _ Hty)) as S. rewrite bytes_len_container_sum in S by reflexivity.
+  cbn [combine map sumN fst snd] in S. fold (enc (TContainer false [tA; tB; tC; tD]) (VCont [av; bv; cv; dv])) in He. rewrite He in S.
+  rewrite has_ty_container, !has_ty_fields_cons in Hty.
+  repeat (let H := fresh "HT" in apply andb_prop in Hty; destruct Hty as [H Hty]).
+  pose proof (field_len_ge tA av HT).
+  pose proof (field_len_ge tB bv HT0).
+  pose proof (field_len_ge tC cv HT1).
+  pose proof (fixed_len_le_field_len tA av).
+  pose proof (fixed_len_le_field_len tB bv).
+  pose proof (fixed_len_le_field_len tC cv).
+  pose proof (fixed_len_le_field_len tD dv).
+  clear Hc Hp Hr Hd He Hty. repeat match goal with H : has_ty _ _ = true |- _ => clear H end.
+  repeat match goal with |- context [len (enc ?t ?v)] => let x := fresh "x" in set (x := len (enc t v)) in *; clearbody x end.
+  repeat match goal with H : context [field_len ?t ?v] |- _ => let y := fresh "y" in set (y := field_len t v) in *; clearbody y end.
+  repeat match goal with |- context [e_fixed_len ?t] => let z := fresh "z" in set (z := e_fixed_len t) in *; clearbody z end.
+  lia.
+Qed.
+Print Assumptions Src_C02_tuple4.
 
 Definition inj5 (p : val * val * val * val * val) : val := VCont [(fst (fst (fst (fst p)))); (snd (fst (fst (fst p)))); (snd (fst (fst p))); (snd (fst p)); (snd p)].
 Lemma inj5_inj p p' : inj5 p' = inj5 p -> p' = p.
@@ -76,6 +161,37 @@ Proof.
 Qed.
 Print Assumptions Src_C01_tuple5.
 
+Theorem Src_C02_tuple5 tA tB tC tD tE bs p :
+  canon_type (TContainer false [tA; tB; tC; tD; tE]) = true -> phys bs -> 2 * len bs <= usize_max ->
+  GenD.tuple5_from_ssz_bytes (d_is_fixed tA) (d_fixed_len tA) (dec tA) (d_is_fixed tB) (d_fixed_len tB) (dec tB) (d_is_fixed tC) (d_fixed_len tC) (dec tC) (d_is_fixed tD) (d_fixed_len tD) (dec tD) (d_is_fixed tE) (d_fixed_len tE) (dec tE) bs = Ok p ->
+  GenD.tuple5_ssz_append (e_is_fixed tA) (e_fixed_len tA) (app_of tA) (e_is_fixed tB) (e_fixed_len tB) (app_of tB) (e_is_fixed tC) (e_fixed_len tC) (app_of tC) (e_is_fixed tD) (e_fixed_len tD) (app_of tD) (e_is_fixed tE) (e_fixed_len tE) (app_of tE) p [] = Ok bs.
+Proof.
+  intros Hc Hp HF Hr.
+  assert (Hd : dec (TContainer false [tA; tB; tC; tD; tE]) bs = Ok (inj5 p)) by (rewrite <- gen_tuple5_from_ssz_bytes, Hr; reflexivity).
+  destruct (canon_facts leaf_facts _ Hc bs (inj5 p) Hp Hd) as (He & Hty).
+  destruct p as [[[[av bv] cv] dv] ev]. unfold inj5 in *. cbn [fst snd] in *.
+  rewrite gen_tuple5_ssz_append; [f_equal; exact He|].
+  pose proof (proj1 (size_facts leaf_facts _ _ Hty)) as S. rewrite bytes_len_container_sum in S by reflexivity.
+  cbn [combine map sumN fst snd] in S. fold (enc (TContainer false [tA; tB; tC; tD; tE]) (VCont [av; bv; cv; dv; ev])) in He. rewrite He in S.
+  rewrite has_ty_container, !has_ty_fields_cons in Hty.
+  repeat (let H := fresh "HT" in apply andb_prop in Hty; destruct Hty as [H Hty]).
+  pose proof (field_len_ge tA av HT).
+  pose proof (field_len_ge tB bv HT0).
+  pose proof (field_len_ge tC cv HT1).
+  pose proof (field_len_ge tD dv HT2).
+  pose proof (fixed_len_le_field_len tA av).
+  pose proof (fixed_len_le_field_len tB bv).
+  pose proof (fixed_len_le_field_len tC cv).
+  pose proof (fixed_len_le_field_len tD dv).
+  pose proof (fixed_len_le_field_len tE ev).
+  clear Hc Hp Hr Hd He Hty. repeat match goal with H : has_ty _ _ = true |- _ => clear H end.
+  repeat match goal with |- context [len (enc ?t ?v)] => let x := fresh "x" in set (x := len (enc t v)) in *; clearbody x end.
+  repeat match goal with H : context [field_len ?t ?v] |- _ => let y := fresh "y" in set (y := field_len t v) in *; clearbody y end.
+  repeat match goal with |- context [e_fixed_len ?t] => let z := fresh "z" in set (z := e_fixed_len t) in *; clearbody z end.
+  lia.
+Qed.
+Print Assumptions Src_C02_tuple5.
+
 Definition inj6 (p : val * val * val * val * val * val) : val := VCont [(fst (fst (fst (fst (fst p))))); (snd (fst (fst (fst (fst p))))); (snd (fst (fst (fst p)))); (snd (fst (fst p))); (snd (fst p)); (snd p)].
 Lemma inj6_inj p p' : inj6 p' = inj6 p -> p' = p.
 Proof. destruct p as [[[[[av bv] cv] dv] ev] fv], p' as [[[[[av' bv'] cv'] dv'] ev'] fv']. unfold inj6. cbn [fst snd]. intro H. injection H; intros; subst; reflexivity. Qed.
@@ -98,6 +214,39 @@ Proof.
   - intro bs. apply gen_tuple6_from_ssz_bytes.
 Qed.
 Print Assumptions Src_C01_tuple6.
+
+Theorem Src_C02_tuple6 tA tB tC tD tE tF bs p :
+  canon_type (TContainer false [tA; tB; tC; tD; tE; tF]) = true -> phys bs -> 2 * len bs <= usize_max ->
+  GenD.tuple6_from_ssz_bytes (d_is_fixed tA) (d_fixed_len tA) (dec tA) (d_is_fixed tB) (d_fixed_len tB) (dec tB) (d_is_fixed tC) (d_fixed_len tC) (dec tC) (d_is_fixed tD) (d_fixed_len tD) (dec tD) (d_is_fixed tE) (d_fixed_len tE) (dec tE) (d_is_fixed tF) (d_fixed_len tF) (dec tF) bs = Ok p ->
+  GenD.tuple6_ssz_append (e_is_fixed tA) (e_fixed_len tA) (app_of tA) (e_is_fixed tB) (e_fixed_len tB) (app_of tB) (e_is_fixed tC) (e_fixed_len tC) (app_of tC) (e_is_fixed tD) (e_fixed_len tD) (app_of tD) (e_is_fixed tE) (e_fixed_len tE) (app_of tE) (e_is_fixed tF) (e_fixed_len tF) (app_of tF) p [] = Ok bs.
+Proof.
+  intros Hc Hp HF Hr.
+  assert (Hd : dec (TContainer false [tA; tB; tC; tD; tE; tF]) bs = Ok (inj6 p)) by (rewrite <- gen_tuple6_from_ssz_bytes, Hr; reflexivity).
+  destruct (canon_facts leaf_facts _ Hc bs (inj6 p) Hp Hd) as (He & Hty).
+  destruct p as [[[[[av bv] cv] dv] ev] fv]. unfold inj6 in *. cbn [fst snd] in *.
+  rewrite gen_tuple6_ssz_append; [f_equal; exact He|].
+  pose proof (proj1 (size_facts leaf_facts _ _ Hty)) as S. rewrite bytes_len_container_sum in S by reflexivity.
+  cbn [combine map sumN fst snd] in S. fold (enc (TContainer false [tA; tB; tC; tD; tE; tF]) (VCont [av; bv; cv; dv; ev; fv])) in He. rewrite He in S.
+  rewrite has_ty_container, !has_ty_fields_cons in Hty.
+  repeat (let H := fresh "HT" in apply andb_prop in Hty; destruct Hty as [H Hty]).
+  pose proof (field_len_ge tA av HT).
+  pose proof (field_len_ge tB bv HT0).
+  pose proof (field_len_ge tC cv HT1).
+  pose proof (field_len_ge tD dv HT2).
+  pose proof (field_len_ge tE ev HT3).
+  pose proof (fixed_len_le_field_len tA av).
+  pose proof (fixed_len_le_field_len tB bv).
+  pose proof (fixed_len_le_field_len tC cv).
+  pose proof (fixed_len_le_field_len tD dv).
+  pose proof (fixed_len_le_field_len tE ev).
+  pose proof (fixed_len_le_field_len tF fv).
+  clear Hc Hp Hr Hd He Hty. repeat match goal with H : has_ty _ _ = true |- _ => clear H end.
+  repeat match goal with |- context [len (enc ?t ?v)] => let x := fresh "x" in set (x := len (enc t v)) in *; clearbody x end.
+  repeat match goal with H : context [field_len ?t ?v] |- _ => let y := fresh "y" in set (y := field_len t v) in *; clearbody y end.
+  repeat match goal with |- context [e_fixed_len ?t] => let z := fresh "z" in set (z := e_fixed_len t) in *; clearbody z end.
+  lia.
+Qed.
+Print Assumptions Src_C02_tuple6.
 
 Definition inj7 (p : val * val * val * val * val * val * val) : val := VCont [(fst (fst (fst (fst (fst (fst p)))))); (snd (fst (fst (fst (fst (fst p)))))); (snd (fst (fst (fst (fst p))))); (snd (fst (fst (fst p)))); (snd (fst (fst p))); (snd (fst p)); (snd p)].
 Lemma inj7_inj p p' : inj7 p' = inj7 p -> p' = p.
@@ -122,6 +271,41 @@ Proof.
 Qed.
 Print Assumptions Src_C01_tuple7.
 
+Theorem Src_C02_tuple7 tA tB tC tD tE tF tG bs p :
+  canon_type (TContainer false [tA; tB; tC; tD; tE; tF; tG]) = true -> phys bs -> 2 * len bs <= usize_max ->
+  GenD.tuple7_from_ssz_bytes (d_is_fixed tA) (d_fixed_len tA) (dec tA) (d_is_fixed tB) (d_fixed_len tB) (dec tB) (d_is_fixed tC) (d_fixed_len tC) (dec tC) (d_is_fixed tD) (d_fixed_len tD) (dec tD) (d_is_fixed tE) (d_fixed_len tE) (dec tE) (d_is_fixed tF) (d_fixed_len tF) (dec tF) (d_is_fixed tG) (d_fixed_len tG) (dec tG) bs = Ok p ->
+  GenD.tuple7_ssz_append (e_is_fixed tA) (e_fixed_len tA) (app_of tA) (e_is_fixed tB) (e_fixed_len tB) (app_of tB) (e_is_fixed tC) (e_fixed_len tC) (app_of tC) (e_is_fixed tD) (e_fixed_len tD) (app_of tD) (e_is_fixed tE) (e_fixed_len tE) (app_of tE) (e_is_fixed tF) (e_fixed_len tF) (app_of tF) (e_is_fixed tG) (e_fixed_len tG) (app_of tG) p [] = Ok bs.
+Proof.
+  intros Hc Hp HF Hr.
+  assert (Hd : dec (TContainer false [tA; tB; tC; tD; tE; tF; tG]) bs = Ok (inj7 p)) by (rewrite <- gen_tuple7_from_ssz_bytes, Hr; reflexivity).
+  destruct (canon_facts leaf_facts _ Hc bs (inj7 p) Hp Hd) as (He & Hty).
+  destruct p as [[[[[[av bv] cv] dv] ev] fv] gv]. unfold inj7 in *. cbn [fst snd] in *.
+  rewrite gen_tuple7_ssz_append; [f_equal; exact He|].
+  pose proof (proj1 (size_facts leaf_facts _ _ Hty)) as S. rewrite bytes_len_container_sum in S by reflexivity.
+  cbn [combine map sumN fst snd] in S. fold (enc (TContainer false [tA; tB; tC; tD; tE; tF; tG]) (VCont [av; bv; cv; dv; ev; fv; gv])) in He. rewrite He in S.
+  rewrite has_ty_container, !has_ty_fields_cons in Hty.
+  repeat (let H := fresh "HT" in apply andb_prop in Hty; destruct Hty as [H Hty]).
+  pose proof (field_len_ge tA av HT).
+  pose proof (field_len_ge tB bv HT0).
+  pose proof (field_len_ge tC cv HT1).
+  pose proof (field_len_ge tD dv HT2).
+  pose proof (field_len_ge tE ev HT3).
+  pose proof (field_len_ge tF fv HT4).
+  pose proof (fixed_len_le_field_len tA av).
+  pose proof (fixed_len_le_field_len tB bv).
+  pose proof (fixed_len_le_field_len tC cv).
+  pose proof (fixed_len_le_field_len tD dv).
+  pose proof (fixed_len_le_field_len tE ev).
+  pose proof (fixed_len_le_field_len tF fv).
+  pose proof (fixed_len_le_field_len tG gv).
+  clear Hc Hp Hr Hd He Hty. repeat match goal with H : has_ty _ _ = true |- _ => clear H end.
+  repeat match goal with |- context [len (enc ?t ?v)] => let x := fresh "x" in set (x := len (enc t v)) in *; clearbody x end.
+  repeat match goal with H : context [field_len ?t ?v] |- _ => let y := fresh "y" in set (y := field_len t v) in *; clearbody y end.
+  repeat match goal with |- context [e_fixed_len ?t] => let z := fresh "z" in set (z := e_fixed_len t) in *; clearbody z end.
+  lia.
+Qed.
+Print Assumptions Src_C02_tuple7.
+
 Definition inj8 (p : val * val * val * val * val * val * val * val) : val := VCont [(fst (fst (fst (fst (fst (fst (fst p))))))); (snd (fst (fst (fst (fst (fst (fst p))))))); (snd (fst (fst (fst (fst (fst p)))))); (snd (fst (fst (fst (fst p))))); (snd (fst (fst (fst p)))); (snd (fst (fst p))); (snd (fst p)); (snd p)].
 Lemma inj8_inj p p' : inj8 p' = inj8 p -> p' = p.
 Proof. destruct p as [[[[[[[av bv] cv] dv] ev] fv] gv] hv], p' as [[[[[[[av' bv'] cv'] dv'] ev'] fv'] gv'] hv']. unfold inj8. cbn [fst snd]. intro H. injection H; intros; subst; reflexivity. Qed.
@@ -144,6 +328,43 @@ Proof.
   - intro bs. apply gen_tuple8_from_ssz_bytes.
 Qed.
 Print Assumptions Src_C01_tuple8.
+
+Theorem Src_C02_tuple8 tA tB tC tD tE tF tG tH bs p :
+  canon_type (TContainer false [tA; tB; tC; tD; tE; tF; tG; tH]) = true -> phys bs -> 2 * len bs <= usize_max ->
+  GenD.tuple8_from_ssz_bytes (d_is_fixed tA) (d_fixed_len tA) (dec tA) (d_is_fixed tB) (d_fixed_len tB) (dec tB) (d_is_fixed tC) (d_fixed_len tC) (dec tC) (d_is_fixed tD) (d_fixed_len tD) (dec tD) (d_is_fixed tE) (d_fixed_len tE) (dec tE) (d_is_fixed tF) (d_fixed_len tF) (dec tF) (d_is_fixed tG) (d_fixed_len tG) (dec tG) (d_is_fixed tH) (d_fixed_len tH) (dec tH) bs = Ok p ->
+  GenD.tuple8_ssz_append (e_is_fixed tA) (e_fixed_len tA) (app_of tA) (e_is_fixed tB) (e_fixed_len tB) (app_of tB) (e_is_fixed tC) (e_fixed_len tC) (app_of tC) (e_is_fixed tD) (e_fixed_len tD) (app_of tD) (e_is_fixed tE) (e_fixed_len tE) (app_of tE) (e_is_fixed tF) (e_fixed_len tF) (app_of tF) (e_is_fixed tG) (e_fixed_len tG) (app_of tG) (e_is_fixed tH) (e_fixed_len tH) (app_of tH) p [] = Ok bs.
+Proof.
+  intros Hc Hp HF Hr.
+  assert (Hd : dec (TContainer false [tA; tB; tC; tD; tE; tF; tG; tH]) bs = Ok (inj8 p)) by (rewrite <- gen_tuple8_from_ssz_bytes, Hr; reflexivity).
+  destruct (canon_facts leaf_facts _ Hc bs (inj8 p) Hp Hd) as (He & Hty).
+  destruct p as [[[[[[[av bv] cv] dv] ev] fv] gv] hv]. unfold inj8 in *. cbn [fst snd] in *.
+  rewrite gen_tuple8_ssz_append; [f_equal; exact He|].
+  pose proof (proj1 (size_facts leaf_facts _ _ Hty)) as S. rewrite bytes_len_container_sum in S by reflexivity.
+  cbn [combine map sumN fst snd] in S. fold (enc (TContainer false [tA; tB; tC; tD; tE; tF; tG; tH]) (VCont [av; bv; cv; dv; ev; fv; gv; hv])) in He. rewrite He in S.
+  rewrite has_ty_container, !has_ty_fields_cons in Hty.
+  repeat (let H := fresh "HT" in apply andb_prop in Hty; destruct Hty as [H Hty]).
+  pose proof (field_len_ge tA av HT).
+  pose proof (field_len_ge tB bv HT0).
+  pose proof (field_len_ge tC cv HT1).
+  pose proof (field_len_ge tD dv HT2).
+  pose proof (field_len_ge tE ev HT3).
+  pose proof (field_len_ge tF fv HT4).
+  pose proof (field_len_ge tG gv HT5).
+  pose proof (fixed_len_le_field_len tA av).
+  pose proof (fixed_len_le_field_len tB bv).
+  pose proof (fixed_len_le_field_len tC cv).
+  pose proof (fixed_len_le_field_len tD dv).
+  pose proof (fixed_len_le_field_len tE ev).
+  pose proof (fixed_len_le_field_len tF fv).
+  pose proof (fixed_len_le_field_len tG gv).
+  pose proof (fixed_len_le_field_len tH hv).
+  clear Hc Hp Hr Hd He Hty. repeat match goal with H : has_ty _ _ = true |- _ => clear H end.
+  repeat match goal with |- context [len (enc ?t ?v)] => let x := fresh "x" in set (x := len (enc t v)) in *; clearbody x end.
+  repeat match goal with H : context [field_len ?t ?v] |- _ => let y := fresh "y" in set (y := field_len t v) in *; clearbody y end.
+  repeat match goal with |- context [e_fixed_len ?t] => let z := fresh "z" in set (z := e_fixed_len t) in *; clearbody z end.
+  lia.
+Qed.
+Print Assumptions Src_C02_tuple8.
 
 Definition inj9 (p : val * val * val * val * val * val * val * val * val) : val := VCont [(fst (fst (fst (fst (fst (fst (fst (fst p)))))))); (snd (fst (fst (fst (fst (fst (fst (fst p)))))))); (snd (fst (fst (fst (fst (fst (fst p))))))); (snd (fst (fst (fst (fst (fst p)))))); (snd (fst (fst (fst (fst p))))); (snd (fst (fst (fst p)))); (snd (fst (fst p))); (snd (fst p)); (snd p)].
 Lemma inj9_inj p p' : inj9 p' = inj9 p -> p' = p.
@@ -168,6 +389,45 @@ Proof.
 Qed.
 Print Assumptions Src_C01_tuple9.
 
+Theorem Src_C02_tuple9 tA tB tC tD tE tF tG tH tI bs p :
+  canon_type (TContainer false [tA; tB; tC; tD; tE; tF; tG; tH; tI]) = true -> phys bs -> 2 * len bs <= usize_max ->
+  GenD.tuple9_from_ssz_bytes (d_is_fixed tA) (d_fixed_len tA) (dec tA) (d_is_fixed tB) (d_fixed_len tB) (dec tB) (d_is_fixed tC) (d_fixed_len tC) (dec tC) (d_is_fixed tD) (d_fixed_len tD) (dec tD) (d_is_fixed tE) (d_fixed_len tE) (dec tE) (d_is_fixed tF) (d_fixed_len tF) (dec tF) (d_is_fixed tG) (d_fixed_len tG) (dec tG) (d_is_fixed tH) (d_fixed_len tH) (dec tH) (d_is_fixed tI) (d_fixed_len tI) (dec tI) bs = Ok p ->
+  GenD.tuple9_ssz_append (e_is_fixed tA) (e_fixed_len tA) (app_of tA) (e_is_fixed tB) (e_fixed_len tB) (app_of tB) (e_is_fixed tC) (e_fixed_len tC) (app_of tC) (e_is_fixed tD) (e_fixed_len tD) (app_of tD) (e_is_fixed tE) (e_fixed_len tE) (app_of tE) (e_is_fixed tF) (e_fixed_len tF) (app_of tF) (e_is_fixed tG) (e_fixed_len tG) (app_of tG) (e_is_fixed tH) (e_fixed_len tH) (app_of tH) (e_is_fixed tI) (e_fixed_len tI) (app_of tI) p [] = Ok bs.
+Proof.
+  intros Hc Hp HF Hr.
+  assert (Hd : dec (TContainer false [tA; tB; tC; tD; tE; tF; tG; tH; tI]) bs = Ok (inj9 p)) by (rewrite <- gen_tuple9_from_ssz_bytes, Hr; reflexivity).
+  destruct (canon_facts leaf_facts _ Hc bs (inj9 p) Hp Hd) as (He & Hty).
+  destruct p as [[[[[[[[av bv] cv] dv] ev] fv] gv] hv] iv]. unfold inj9 in *. cbn [fst snd] in *.
+  rewrite gen_tuple9_ssz_append; [f_equal; exact He|].
+  pose proof (proj1 (size_facts leaf_facts _ _ Hty)) as S. rewrite bytes_len_container_sum in S by reflexivity.
+  cbn [combine map sumN fst snd] in S. fold (enc (TContainer false [tA; tB; tC; tD; tE; tF; tG; tH; tI]) (VCont [av; bv; cv; dv; ev; fv; gv; hv; iv])) in He. rewrite He in S.
+  rewrite has_ty_container, !has_ty_fields_cons in Hty.
+  repeat (let H := fresh "HT" in apply andb_prop in Hty; destruct Hty as [H Hty]).
+  pose proof (field_len_ge tA av HT).
+  pose proof (field_len_ge tB bv HT0).
+  pose proof (field_len_ge tC cv HT1).
+  pose proof (field_len_ge tD dv HT2).
+  pose proof (field_len_ge tE ev HT3).
+  pose proof (field_len_ge tF fv HT4).
+  pose proof (field_len_ge tG gv HT5).
+  pose proof (field_len_ge tH hv HT6).
+  pose proof (fixed_len_le_field_len tA av).
+  pose proof (fixed_len_le_field_len tB bv).
+  pose proof (fixed_len_le_field_len tC cv).
+  pose proof (fixed_len_le_field_len tD dv).
+  pose proof (fixed_len_le_field_len tE ev).
+  pose proof (fixed_len_le_field_len tF fv).
+  pose proof (fixed_len_le_field_len tG gv).
+  pose proof (fixed_len_le_field_len tH hv).
+  pose proof (fixed_len_le_field_len tI iv).
+  clear Hc Hp Hr Hd He Hty. repeat match goal with H : has_ty _ _ = true |- _ => clear H end.
+  repeat match goal with |- context [len (enc ?t ?v)] => let x := fresh "x" in set (x := len (enc t v)) in *; clearbody x end.
+  repeat match goal with H : context [field_len ?t ?v] |- _ => let y := fresh "y" in set (y := field_len t v) in *; clearbody y end.
+  repeat match goal with |- context [e_fixed_len ?t] => let z := fresh "z" in set (z := e_fixed_len t) in *; clearbody z end.
+  lia.
+Qed.
+Print Assumptions Src_C02_tuple9.
+
 Definition inj10 (p : val * val * val * val * val * val * val * val * val * val) : val := VCont [(fst (fst (fst (fst (fst (fst (fst (fst (fst p))))))))); (snd (fst (fst (fst (fst (fst (fst (fst (fst p))))))))); (snd (fst (fst (fst (fst (fst (fst (fst p)))))))); (snd (fst (fst (fst (fst (fst (fst p))))))); (snd (fst (fst (fst (fst (fst p)))))); (snd (fst (fst (fst (fst p))))); (snd (fst (fst (fst p)))); (snd (fst (fst p))); (snd (fst p)); (snd p)].
 Lemma inj10_inj p p' : inj10 p' = inj10 p -> p' = p.
 Proof. destruct p as [[[[[[[[[av bv] cv] dv] ev] fv] gv] hv] iv] jv], p' as [[[[[[[[[av' bv'] cv'] dv'] ev'] fv'] gv'] hv'] iv'] jv']. unfold inj10. cbn [fst snd]. intro H. injection H; intros; subst; reflexivity. Qed.
@@ -190,6 +450,47 @@ Proof.
   - intro bs. apply gen_tuple10_from_ssz_bytes.
 Qed.
 Print Assumptions Src_C01_tuple10.
+
+Theorem Src_C02_tuple10 tA tB tC tD tE tF tG tH tI tJ bs p :
+  canon_type (TContainer false [tA; tB; tC; tD; tE; tF; tG; tH; tI; tJ]) = true -> phys bs -> 2 * len bs <= usize_max ->
+  GenD.tuple10_from_ssz_bytes (d_is_fixed tA) (d_fixed_len tA) (dec tA) (d_is_fixed tB) (d_fixed_len tB) (dec tB) (d_is_fixed tC) (d_fixed_len tC) (dec tC) (d_is_fixed tD) (d_fixed_len tD) (dec tD) (d_is_fixed tE) (d_fixed_len tE) (dec tE) (d_is_fixed tF) (d_fixed_len tF) (dec tF) (d_is_fixed tG) (d_fixed_len tG) (dec tG) (d_is_fixed tH) (d_fixed_len tH) (dec tH) (d_is_fixed tI) (d_fixed_len tI) (dec tI) (d_is_fixed tJ) (d_fixed_len tJ) (dec tJ) bs = Ok p ->
+  GenD.tuple10_ssz_append (e_is_fixed tA) (e_fixed_len tA) (app_of tA) (e_is_fixed tB) (e_fixed_len tB) (app_of tB) (e_is_fixed tC) (e_fixed_len tC) (app_of tC) (e_is_fixed tD) (e_fixed_len tD) (app_of tD) (e_is_fixed tE) (e_fixed_len tE) (app_of tE) (e_is_fixed tF) (e_fixed_len tF) (app_of tF) (e_is_fixed tG) (e_fixed_len tG) (app_of tG) (e_is_fixed tH) (e_fixed_len tH) (app_of tH) (e_is_fixed tI) (e_fixed_len tI) (app_of tI) (e_is_fixed tJ) (e_fixed_len tJ) (app_of tJ) p [] = Ok bs.
+Proof.
+  intros Hc Hp HF Hr.
+  assert (Hd : dec (TContainer false [tA; tB; tC; tD; tE; tF; tG; tH; tI; tJ]) bs = Ok (inj10 p)) by (rewrite <- gen_tuple10_from_ssz_bytes, Hr; reflexivity).
+  destruct (canon_facts leaf_facts _ Hc bs (inj10 p) Hp Hd) as (He & Hty).
+  destruct p as [[[[[[[[[av bv] cv] dv] ev] fv] gv] hv] iv] jv]. unfold inj10 in *. cbn [fst snd] in *.
+  rewrite gen_tuple10_ssz_append; [f_equal; exact He|].
+  pose proof (proj1 (size_facts leaf_facts _ _ Hty)) as S. rewrite bytes_len_container_sum in S by reflexivity.
+  cbn [combine map sumN fst snd] in S. fold (enc (TContainer false [tA; tB; tC; tD; tE; tF; tG; tH; tI; tJ]) (VCont [av; bv; cv; dv; ev; fv; gv; hv; iv; jv])) in He. rewrite He in S.
+  rewrite has_ty_container, !has_ty_fields_cons in Hty.
+  repeat (let H := fresh "HT" in apply andb_prop in Hty; destruct Hty as [H Hty]).
+  pose proof (field_len_ge tA av HT).
+  pose proof (field_len_ge tB bv HT0).
+  pose proof (field_len_ge tC cv HT1).
+  pose proof (field_len_ge tD dv HT2).
+  pose proof (field_len_ge tE ev HT3).
+  pose proof (field_len_ge tF fv HT4).
+  pose proof (field_len_ge tG gv HT5).
+  pose proof (field_len_ge tH hv HT6).
+  pose proof (field_len_ge tI iv HT7).
+  pose proof (fixed_len_le_field_len tA av).
+  pose proof (fixed_len_le_field_len tB bv).
+  pose proof (fixed_len_le_field_len tC cv).
+  pose proof (fixed_len_le_field_len tD dv).
+  pose proof (fixed_len_le_field_len tE ev).
+  pose proof (fixed_len_le_field_len tF fv).
+  pose proof (fixed_len_le_field_len tG gv).
+  pose proof (fixed_len_le_field_len tH hv).
+  pose proof (fixed_len_le_field_len tI iv).
+  pose proof (fixed_len_le_field_len tJ jv).
+  clear Hc Hp Hr Hd He Hty. repeat match goal with H : has_ty _ _ = true |- _ => clear H end.
+  repeat match goal with |- context [len (enc ?t ?v)] => let x := fresh "x" in set (x := len (enc t v)) in *; clearbody x end.
+  repeat match goal with H : context [field_len ?t ?v] |- _ => let y := fresh "y" in set (y := field_len t v) in *; clearbody y end.
+  repeat match goal with |- context [e_fixed_len ?t] => let z := fresh "z" in set (z := e_fixed_len t) in *; clearbody z end.
+  lia.
+Qed.
+Print Assumptions Src_C02_tuple10.
 
 Definition inj11 (p : val * val * val * val * val * val * val * val * val * val * val) : val := VCont [(fst (fst (fst (fst (fst (fst (fst (fst (fst (fst p)))))))))); (snd (fst (fst (fst (fst (fst (fst (fst (fst (fst p)))))))))); (snd (fst (fst (fst (fst (fst (fst (fst (fst p))))))))); (snd (fst (fst (fst (fst (fst (fst (fst p)))))))); (snd (fst (fst (fst (fst (fst (fst p))))))); (snd (fst (fst (fst (fst (fst p)))))); (snd (fst (fst (fst (fst p))))); (snd (fst (fst (fst p)))); (snd (fst (fst p))); (snd (fst p)); (snd p)].
 Lemma inj11_inj p p' : inj11 p' = inj11 p -> p' = p.
@@ -214,6 +515,49 @@ Proof.
 Qed.
 Print Assumptions Src_C01_tuple11.
 
+Theorem Src_C02_tuple11 tA tB tC tD tE tF tG tH tI tJ tK bs p :
+  canon_type (TContainer false [tA; tB; tC; tD; tE; tF; tG; tH; tI; tJ; tK]) = true -> phys bs -> 2 * len bs <= usize_max ->
+  GenD.tuple11_from_ssz_bytes (d_is_fixed tA) (d_fixed_len tA) (dec tA) (d_is_fixed tB) (d_fixed_len tB) (dec tB) (d_is_fixed tC) (d_fixed_len tC) (dec tC) (d_is_fixed tD) (d_fixed_len tD) (dec tD) (d_is_fixed tE) (d_fixed_len tE) (dec tE) (d_is_fixed tF) (d_fixed_len tF) (dec tF) (d_is_fixed tG) (d_fixed_len tG) (dec tG) (d_is_fixed tH) (d_fixed_len tH) (dec tH) (d_is_fixed tI) (d_fixed_len tI) (dec tI) (d_is_fixed tJ) (d_fixed_len tJ) (dec tJ) (d_is_fixed tK) (d_fixed_len tK) (dec tK) bs = Ok p ->
+  GenD.tuple11_ssz_append (e_is_fixed tA) (e_fixed_len tA) (app_of tA) (e_is_fixed tB) (e_fixed_len tB) (app_of tB) (e_is_fixed tC) (e_fixed_len tC) (app_of tC) (e_is_fixed tD) (e_fixed_len tD) (app_of tD) (e_is_fixed tE) (e_fixed_len tE) (app_of tE) (e_is_fixed tF) (e_fixed_len tF) (app_of tF) (e_is_fixed tG) (e_fixed_len tG) (app_of tG) (e_is_fixed tH) (e_fixed_len tH) (app_of tH) (e_is_fixed tI) (e_fixed_len tI) (app_of tI) (e_is_fixed tJ) (e_fixed_len tJ) (app_of tJ) (e_is_fixed tK) (e_fixed_len tK) (app_of tK) p [] = Ok bs.
+Proof.
+  intros Hc Hp HF Hr.
+  assert (Hd : dec (TContainer false [tA; tB; tC; tD; tE; tF; tG; tH; tI; tJ; tK]) bs = Ok (inj11 p)) by (rewrite <- gen_tuple11_from_ssz_bytes, Hr; reflexivity).
+  destruct (canon_facts leaf_facts _ Hc bs (inj11 p) Hp Hd) as (He & Hty).
+  destruct p as [[[[[[[[[[av bv] cv] dv] ev] fv] gv] hv] iv] jv] kv]. unfold inj11 in *. cbn [fst snd] in *.
+  rewrite gen_tuple11_ssz_append; [f_equal; exact He|].
+  pose proof (proj1 (size_facts leaf_facts _ _ Hty)) as S. rewrite bytes_len_container_sum in S by reflexivity.
+  cbn [combine map sumN fst snd] in S. fold (enc (TContainer false [tA; tB; tC; tD; tE; tF; tG; tH; tI; tJ; tK]) (VCont [av; bv; cv; dv; ev; fv; gv; hv; iv; jv; kv])) in He. rewrite He in S.
+  rewrite has_ty_container, !has_ty_fields_cons in Hty.
+  repeat (let H := fresh "HT" in apply andb_prop in Hty; destruct Hty as [H Hty]).
+  pose proof (field_len_ge tA av HT).
+  pose proof (field_len_ge tB bv HT0).
+  pose proof (field_len_ge tC cv HT1).
+  pose proof (field_len_ge tD dv HT2).
+  pose proof (field_len_ge tE ev HT3).
+  pose proof (field_len_ge tF fv HT4).
+  pose proof (field_len_ge tG gv HT5).
+  pose proof (field_len_ge tH hv HT6).
+  pose proof (field_len_ge tI iv HT7).
+  pose proof (field_len_ge tJ jv HT8).
+  pose proof (fixed_len_le_field_len tA av).
+  pose proof (fixed_len_le_field_len tB bv).
+  pose proof (fixed_len_le_field_len tC cv).
+  pose proof (fixed_len_le_field_len tD dv).
+  pose proof (fixed_len_le_field_len tE ev).
+  pose proof (fixed_len_le_field_len tF fv).
+  pose proof (fixed_len_le_field_len tG gv).
+  pose proof (fixed_len_le_field_len tH hv).
+  pose proof (fixed_len_le_field_len tI iv).
+  pose proof (fixed_len_le_field_len tJ jv).
+  pose proof (fixed_len_le_field_len tK kv).
+  clear Hc Hp Hr Hd He Hty. repeat match goal with H : has_ty _ _ = true |- _ => clear H end.
+  repeat match goal with |- context [len (enc ?t ?v)] => let x := fresh "x" in set (x := len (enc t v)) in *; clearbody x end.
+  repeat match goal with H : context [field_len ?t ?v] |- _ => let y := fresh "y" in set (y := field_len t v) in *; clearbody y end.
+  repeat match goal with |- context [e_fixed_len ?t] => let z := fresh "z" in set (z := e_fixed_len t) in *; clearbody z end.
+  lia.
+Qed.
+Print Assumptions Src_C02_tuple11.
+
 Definition inj12 (p : val * val * val * val * val * val * val * val * val * val * val * val) : val := VCont [(fst (fst (fst (fst (fst (fst (fst (fst (fst (fst (fst p))))))))))); (snd (fst (fst (fst (fst (fst (fst (fst (fst (fst (fst p))))))))))); (snd (fst (fst (fst (fst (fst (fst (fst (fst (fst p)))))))))); (snd (fst (fst (fst (fst (fst (fst (fst (fst p))))))))); (snd (fst (fst (fst (fst (fst (fst (fst p)))))))); (snd (fst (fst (fst (fst (fst (fst p))))))); (snd (fst (fst (fst (fst (fst p)))))); (snd (fst (fst (fst (fst p))))); (snd (fst (fst (fst p)))); (snd (fst (fst p))); (snd (fst p)); (snd p)].
 Lemma inj12_inj p p' : inj12 p' = inj12 p -> p' = p.
 Proof. destruct p as [[[[[[[[[[[av bv] cv] dv] ev] fv] gv] hv] iv] jv] kv] lv], p' as [[[[[[[[[[[av' bv'] cv'] dv'] ev'] fv'] gv'] hv'] iv'] jv'] kv'] lv']. unfold inj12. cbn [fst snd]. intro H. injection H; intros; subst; reflexivity. Qed.
@@ -236,3 +580,48 @@ Proof.
   - intro bs. apply gen_tuple12_from_ssz_bytes.
 Qed.
 Print Assumptions Src_C01_tuple12.
+
+Theorem Src_C02_tuple12 tA tB tC tD tE tF tG tH tI tJ tK tL bs p :
+  canon_type (TContainer false [tA; tB; tC; tD; tE; tF; tG; tH; tI; tJ; tK; tL]) = true -> phys bs -> 2 * len bs <= usize_max ->
+  GenD.tuple12_from_ssz_bytes (d_is_fixed tA) (d_fixed_len tA) (dec tA) (d_is_fixed tB) (d_fixed_len tB) (dec tB) (d_is_fixed tC) (d_fixed_len tC) (dec tC) (d_is_fixed tD) (d_fixed_len tD) (dec tD) (d_is_fixed tE) (d_fixed_len tE) (dec tE) (d_is_fixed tF) (d_fixed_len tF) (dec tF) (d_is_fixed tG) (d_fixed_len tG) (dec tG) (d_is_fixed tH) (d_fixed_len tH) (dec tH) (d_is_fixed tI) (d_fixed_len tI) (dec tI) (d_is_fixed tJ) (d_fixed_len tJ) (dec tJ) (d_is_fixed tK) (d_fixed_len tK) (dec tK) (d_is_fixed tL) (d_fixed_len tL) (dec tL) bs = Ok p ->
+  GenD.tuple12_ssz_append (e_is_fixed tA) (e_fixed_len tA) (app_of tA) (e_is_fixed tB) (e_fixed_len tB) (app_of tB) (e_is_fixed tC) (e_fixed_len tC) (app_of tC) (e_is_fixed tD) (e_fixed_len tD) (app_of tD) (e_is_fixed tE) (e_fixed_len tE) (app_of tE) (e_is_fixed tF) (e_fixed_len tF) (app_of tF) (e_is_fixed tG) (e_fixed_len tG) (app_of tG) (e_is_fixed tH) (e_fixed_len tH) (app_of tH) (e_is_fixed tI) (e_fixed_len tI) (app_of tI) (e_is_fixed tJ) (e_fixed_len tJ) (app_of tJ) (e_is_fixed tK) (e_fixed_len tK) (app_of tK) (e_is_fixed tL) (e_fixed_len tL) (app_of tL) p [] = Ok bs.
+Proof.
+  intros Hc Hp HF Hr.
+  assert (Hd : dec (TContainer false [tA; tB; tC; tD; tE; tF; tG; tH; tI; tJ; tK; tL]) bs = Ok (inj12 p)) by (rewrite <- gen_tuple12_from_ssz_bytes, Hr; reflexivity).
+  destruct (canon_facts leaf_facts _ Hc bs (inj12 p) Hp Hd) as (He & Hty).
+  destruct p as [[[[[[[[[[[av bv] cv] dv] ev] fv] gv] hv] iv] jv] kv] lv]. unfold inj12 in *. cbn [fst snd] in *.
+  rewrite gen_tuple12_ssz_append; [f_equal; exact He|].
+  pose proof (proj1 (size_facts leaf_facts _ _ Hty)) as S. rewrite bytes_len_container_sum in S by reflexivity.
+  cbn [combine map sumN fst snd] in S. fold (enc (TContainer false [tA; tB; tC; tD; tE; tF; tG; tH; tI; tJ; tK; tL]) (VCont [av; bv; cv; dv; ev; fv; gv; hv; iv; jv; kv; lv])) in He. rewrite He in S.
+  rewrite has_ty_container, !has_ty_fields_cons in Hty.
+  repeat (let H := fresh "HT" in apply andb_prop in Hty; destruct Hty as [H Hty]).
+  pose proof (field_len_ge tA av HT).
+  pose proof (field_len_ge tB bv HT0).
+  pose proof (field_len_ge tC cv HT1).
+  pose proof (field_len_ge tD dv HT2).
+  pose proof (field_len_ge tE ev HT3).
+  pose proof (field_len_ge tF fv HT4).
+  pose proof (field_len_ge tG gv HT5).
+  pose proof (field_len_ge tH hv HT6).
+  pose proof (field_len_ge tI iv HT7).
+  pose proof (field_len_ge tJ jv HT8).
+  pose proof (field_len_ge tK kv HT9).
+  pose proof (fixed_len_le_field_len tA av).
+  pose proof (fixed_len_le_field_len tB bv).
+  pose proof (fixed_len_le_field_len tC cv).
+  pose proof (fixed_len_le_field_len tD dv).
+  pose proof (fixed_len_le_field_len tE ev).
+  pose proof (fixed_len_le_field_len tF fv).
+  pose proof (fixed_len_le_field_len tG gv).
+  pose proof (fixed_len_le_field_len tH hv).
+  pose proof (fixed_len_le_field_len tI iv).
+  pose proof (fixed_len_le_field_len tJ jv).
+  pose proof (fixed_len_le_field_len tK kv).
+  pose proof (fixed_len_le_field_len tL lv).
+  clear Hc Hp Hr Hd He Hty. repeat match goal with H : has_ty _ _ = true |- _ => clear H end.
+  repeat match goal with |- context [len (enc ?t ?v)] => let x := fresh "x" in set (x := len (enc t v)) in *; clearbody x end.
+  repeat match goal with H : context [field_len ?t ?v] |- _ => let y := fresh "y" in set (y := field_len t v) in *; clearbody y end.
+  repeat match goal with |- context [e_fixed_len ?t] => let z := fresh "z" in set (z := e_fixed_len t) in *; clearbody z end.
+  lia.
+Qed.
+Print Assumptions Src_C02_tuple12.
